@@ -11,21 +11,6 @@ abbrev Tok := Option Rat
 def codecQ : Codec Rat Tok := ⟨fun v => some v, fun t => t, fun k => some (k : Rat)⟩
 def numQ : Num Rat := ⟨fun a b => decide (a < b), fun v => Int.tdiv v.num v.den, fun k => (k : Rat)⟩
 
-def absQ (x : Rat) : Rat := if x < 0 then -x else x
-
-/-- `np.allclose(point, x, rtol=0, atol=tol)`: the documented absolute tolerance -/
-def closeQ (tol : Rat) (x p : Pt2 Rat) : Bool :=
-  decide (absQ (p.1 - x.1) ≤ tol) && decide (absQ (p.2 - x.2) ≤ tol)
-
-/-- `uniquify_point_set`: squared distance below tol² -/
-def nearQ (tol : Rat) (x p : Pt2 Rat) : Bool :=
-  decide ((p.1 - x.1) * (p.1 - x.1) + (p.2 - x.2) * (p.2 - x.2) < tol * tol)
-
-/-- LineFracture._check_pts: `np.all(np.isclose(pts[:, 0], pts[:, 1]))` with numpy's defaults -/
-def degenQ (p q : Pt2 Rat) : Bool :=
-  decide (absQ (p.1 - q.1) ≤ (1 : Rat) / 100000000 + (1 : Rat) / 100000 * absQ q.1) &&
-  decide (absQ (p.2 - q.2) ≤ (1 : Rat) / 100000000 + (1 : Rat) / 100000 * absQ q.2)
-
 /-- PlaneFracture constructor, record layer only: at least three vertices, vertices kept -/
 def normQ (f : List (Pt3 Rat)) : Except Err (List (Pt3 Rat)) :=
   if f.length < 3 then .error .value else .ok f
@@ -132,7 +117,9 @@ def step (j : Json) : R Json := do
     match write2d codecQ (closeQ tol) fs hdr with
     | .error e => pure (errJson e)
     | .ok lines =>
-      pure (obj [("lines", ofList lineJson lines),
+      -- the decidable input conditions of csv2d_roundtrip_tol, evaluated by the model
+      let pre : Bool := decide (Separated tol fs) && decide (Separated rtol fs) && decide (Constructible fs)
+      pure (obj [("lines", ofList lineJson lines), ("pre", Json.bool pre),
                  ("net", net2Json (read2d codecQ numQ (nearQ rtol) degenQ lines o))])
   | "raw2d" =>
     let lines ← field j "lines" >>= jList jLine
